@@ -814,6 +814,11 @@ func runHistory(t *rapid.T) {
 		report(t, h, "dry run", dry, err)
 		return
 	}
+	if err := checkDownloads(h, w, [][2]int64{{h.wholeOff % 1000003, h.wholeOff % 77777}, {h.wholeOff % 70001, 99}}); err != nil {
+		report(t, h, "dry run", dry, err)
+		return
+	}
+	evid.R.Label("download-handler/whole-and-ranged-after-all-uploads")
 	zipsDry := dry.zipCount()
 	if len(triggers) > 0 {
 		if err := dry.suffix(h.seq[triggers[0].pos], nil); err != nil {
